@@ -16,6 +16,9 @@ from . import bspl as rb
 from . import geo as rg
 
 
+LEAF_NOISE = 4 * np.finfo(float).eps / 1e-10       # see Env.spline_jets
+
+
 class FormError(Exception):
     """The AST denotes something outside the language (type error) -- the reference rejects it."""
 
@@ -353,9 +356,13 @@ class Env:
         H = R[2].reshape((self.Q,) + R[2].shape[d:]) if order >= 2 else None
         tshape = val.shape[1:]
 
-        # Leaf magnitudes: the rounding scale of a spline value / derivative is sum |coefficient| |basis derivative|, not
-        # the absolute value of the result (a Jacobian entry that vanishes identically, e.g. d(time)/d(space parameter) of a
-        # space-time cylinder, is rounding noise of that scale).  NURBS: quotient-rule bound from the homogeneous parts.
+        # Leaf magnitudes: |value|, but never below the value's own rounding noise expressed as a magnitude.  A spline value /
+        # derivative carries an absolute error of a few eps * S with S = sum |coefficient| |basis derivative| (a Jacobian entry
+        # that vanishes identically, e.g. d(time)/d(space parameter) of a space-time cylinder, is pure noise of that size, and
+        # two correct evaluations differ by it).  Results are compared with relative tolerance rtol >= 1e-10 on magnitudes,
+        # so the noise corresponds to a magnitude of LEAF_NOISE * S.  (Using S itself as the magnitude would be far too
+        # coarse: S exceeds |value| by factors of 10..1000 for derivatives and the factors multiply through products.)
+        # NURBS: quotient-rule bound from the homogeneous parts.
         def absd(*ks):
             der = [0] * d
             for k in ks:
@@ -401,10 +408,10 @@ class Env:
             v = val[(slice(None),) + idx].reshape(self.Q, 1, 1)
             g = [J[(slice(None),) + idx + (k,)].reshape(self.Q, 1, 1) for k in range(d)] if order >= 1 else None
             h = [[H[(slice(None),) + idx + (i, k)].reshape(self.Q, 1, 1) for k in range(d)] for i in range(d)] if order >= 2 else None
-            mv = np.maximum(np.abs(v), mag_v(idx).reshape(self.Q, 1, 1))
-            mg = [np.maximum(np.abs(g[k]), mag_g(idx, k).reshape(self.Q, 1, 1)) for k in range(d)] if order >= 1 else None
-            mh = [[np.maximum(np.abs(h[i][k]), mag_h(idx, i, k).reshape(self.Q, 1, 1)) for k in range(d)] for i in range(d)] \
-                if order >= 2 else None
+            mv = np.maximum(np.abs(v), LEAF_NOISE * mag_v(idx).reshape(self.Q, 1, 1))
+            mg = [np.maximum(np.abs(g[k]), LEAF_NOISE * mag_g(idx, k).reshape(self.Q, 1, 1)) for k in range(d)] if order >= 1 else None
+            mh = [[np.maximum(np.abs(h[i][k]), LEAF_NOISE * mag_h(idx, i, k).reshape(self.Q, 1, 1)) for k in range(d)]
+                  for i in range(d)] if order >= 2 else None
             return Jet(v, g, h, d, mag=Jet(mv, mg, mh, d, mag=False))
         if tshape == ():
             return mk(())
